@@ -41,6 +41,29 @@ def run(ctx):
                                                                                "trace_prefix": lines[max(0, v.line - 3):v.line]})
             ctx.violation(v.bad, keep, "PartitionProp clause %s broken at trace line %d: %s" % (v.bad, v.line, ev[:600]))
         named[label] = nlines
+    # the route depends on the series and the shard count only: not on what was split before (same-bytes pairs across a history larger
+    # than any bounded memo), not on what other goroutines split at the same moment (recorded run, same trace format, same monitor)
+    out, tr = ctx.path("out-history.json"), ctx.path("trace-history.ndjson")
+    rc, txt, wall = ctx.go_test("c06", run="TestHistory", env={"VERIF_OUT": out, "VERIF_TRACE_OUT": tr})
+    if rc != 0 or not os.path.exists(out):
+        sig = vlib.crash_attribution(txt)
+        if sig:
+            ctx.violation("crash:" + sig[0], ctx.save_replay("crash", {"output": sig[1]}), "splitting crashed: " + sig[0])
+        else:
+            raise vlib.MachineryError("harness c06 TestHistory failed (rc=%d)\n%s" % (rc, txt[-3000:]))
+    else:
+        r = vlib.read_results(out)
+        v = ctx.tlc_validate("PartitionTrace", "PartitionTrace.cfg", tr, r["traces"], label="history")
+        ctx.cov["evaluations"] += r["evaluations"]
+        ctx.cov["traces_validated_against_impl"] += r["traces"]
+        for k, n in r["named"].items():
+            named[k] = named.get(k, 0) + n
+        if v.violated:
+            lines = open(tr).read().splitlines()
+            ev = lines[v.line - 1] if 0 < v.line <= len(lines) else ""
+            keep = ctx.save_replay(v.bad.replace("(", "_").replace(")", "") + "-history", {"clause": v.bad, "trace_line": v.line, "event": json.loads(ev) if ev else None,
+                                                                                            "trace_prefix": lines[max(0, v.line - 4):v.line]})
+            ctx.violation(v.bad, keep, "PartitionProp clause %s broken (history / concurrent splits) at trace line %d: %s" % (v.bad, v.line, ev[:400]))
     # "is reported at most once per flush", end to end: the pipeline schedules of C01 (workers held in ReceiveMap / Flush / before Reset
     # while the flusher ticks), judged on the clauses that are this property's
     import c01
